@@ -45,7 +45,20 @@ type SliceV struct {
 	len *Term // BV64
 	cap *Term
 }
-type MapV struct{ obj int } // 0 => nil map
+type MapV struct {
+	obj  int   // 0 => nil map
+	nilG *Term // for obj != 0: condition under which this value is the nil map (nil pointer = never)
+}
+
+func (m MapV) isNil() *Term {
+	if m.obj == 0 {
+		return True
+	}
+	if m.nilG == nil {
+		return False
+	}
+	return m.nilG
+}
 type MapEntry struct {
 	key     Value
 	present *Term
@@ -87,6 +100,7 @@ type MutexData struct {
 }
 type IterV struct{ obj int }
 type IterData struct {
+	nilG *Term
 	m   int
 	pos *Term // BV8
 	n   int
@@ -173,7 +187,11 @@ func valEq(a, b Value) *Term {
 		}
 		return And(cs...)
 	case MapV:
-		return BoolC(x.obj == b.(MapV).obj)
+		y := b.(MapV)
+		if x.obj != 0 && y.obj != 0 {
+			return BoolC(x.obj == y.obj)
+		}
+		return And(x.isNil(), y.isNil())
 	case ChanV:
 		return BoolC(x.obj == b.(ChanV).obj)
 	case FuncV:
@@ -279,8 +297,14 @@ func iteVal(c *Term, a, b Value) Value {
 		}
 		return r
 	case MapV:
-		if x.obj == b.(MapV).obj {
-			return x
+		y := b.(MapV)
+		switch {
+		case x.obj == y.obj:
+			return MapV{obj: x.obj, nilG: Ite(c, x.isNil(), y.isNil())}
+		case x.obj == 0:
+			return MapV{obj: y.obj, nilG: Ite(c, True, y.isNil())}
+		case y.obj == 0:
+			return MapV{obj: x.obj, nilG: Ite(c, x.isNil(), True)}
 		}
 	case MapData:
 		y := b.(MapData)
@@ -322,7 +346,7 @@ func iteVal(c *Term, a, b Value) Value {
 	case IterData:
 		y := b.(IterData)
 		if x.m == y.m && x.n == y.n {
-			return IterData{m: x.m, n: x.n, pos: Ite(c, x.pos, y.pos)}
+			return IterData{m: x.m, n: x.n, pos: Ite(c, x.pos, y.pos), nilG: x.nilG}
 		}
 	case ChanData:
 		return ChanData{closed: Ite(c, x.closed, b.(ChanData).closed), ticker: x.ticker}
